@@ -1,4 +1,5 @@
 // C03 finding C03-F1 (class "trace_vectorised"): a label repeated INSIDE the second operand (a trace of b) in last position.
+// STATUS: repaired in /repo (is_vectorisable: last index of b repeated inside b counts as contracted); this program now prints the expected values.
 //   g++ -std=c++14 -O2 -msse2 -I/repo c03_f1_trace_vectorised.cpp && ./a.out        (any ISA, any CONTRACT_OPT)
 // einsum<Index<0>,Index<1,1>>(a,b) denotes  r(i) = a(i) * sum_j b(j,j).  is_vectorisable<Idx0,Idx1,..> (einsum_meta.h) only asks
 // whether b's LAST label occurs in a ("last_index_contracted"); here it does not, so the RecursiveCartesian loop nest
